@@ -17,6 +17,9 @@ CORE = [{"ev": "ask"}, {"ev": "adv", "d": 1},
         {"ev": "call", "read": True, "out": "ok"},
         {"ev": "call", "read": True, "out": "gwerr", "kind": "proxy"},
         {"ev": "call", "read": True, "out": "appexc", "kind": "value"}]
+# reads of the breaker are events like any other: outcomes reported without a read (legs already in flight)
+CORE7 = CORE + [{"ev": "call", "read": False, "out": "gwerr", "kind": "proxy"},
+                {"ev": "call", "read": False, "out": "ok"}]
 EXT = CORE + [{"ev": "call", "read": True, "out": "skip"},
               {"ev": "call", "read": True, "out": "gwerr", "kind": "conn"},
               {"ev": "call", "read": True, "out": "appexc", "kind": "io"},
@@ -185,10 +188,13 @@ def part_model(ctx):
             ("MC_C19", "MC_strict.cfg", "non-vacuity: strict cool-down test must be refuted", "strict"),
             ("MC_C19", "MC_noreset.cfg", "non-vacuity: success not clearing the counter must be refuted", "noreset"),
             ("MC_C19", "MC_swallow.cfg", "non-vacuity: swallowing application exceptions must be refuted", "swallow"),
+            ("MC_C19", "MC_stale.cfg", "non-vacuity: a failure after the period (nobody asked yet) not opening the breaker must be refuted", "stale"),
             ("MC_C19Filter", "MC_filter.cfg", "filter: I=>P over the whole input space + case generation", "f"),
             ("MC_C19Filter", "MC_filter_v6.cfg", "non-vacuity: raising on IPv6 literals must be refuted", "fv6"),
             ("MC_C19Filter", "MC_filter_unicode.cfg", "non-vacuity: resolver UnicodeError must be refuted", "funi"),
-            ("MC_C19Filter", "MC_filter_blockinv.cfg", "non-vacuity: inverted block-list test must be refuted", "finv")]
+            ("MC_C19Filter", "MC_filter_blockinv.cfg", "non-vacuity: inverted block-list test must be refuted", "finv"),
+            ("MC_C19Filter", "MC_filter_case.cfg", "non-vacuity: case-sensitive list matching must be refuted", "fcase"),
+            ("MC_C19Filter", "MC_filter_strip.cfg", "non-vacuity: items validated without their blanks but compared with them must be refuted", "fstrip")]
     if T:
         jobs += [("MC_C19", "MC_%s.cfg" % w, "witness %s (expected to be violated)" % w, w) for w in
                  ("W_NeverOpen", "W_NeverPermittedOnly", "W_NeverRecovered", "W_NeverPropagated", "W_NeverLateWhileOpen")]
@@ -210,7 +216,7 @@ def part_model(ctx):
     # the filter input space written by TLC (JsonSerialize) in the directory of the MC_filter run
     space = json.load(open(os.path.join(workdir(ctx, "mc-f"), "filter_space.json")))
     import re
-    m = re.search(r'<<"FILTER-CASES", (\d+), (\d+)>>', res[6].out)
+    m = re.search(r'<<"FILTER-CASES", (\d+), (\d+)>>', res[7].out)
     ctx.cov["filter_space_cases"] = int(m.group(1)) if m else 0
     return space
 
@@ -220,10 +226,13 @@ def part_trees(ctx):
     jobs = []
     if not T:
         jobs.append(("core6", {"configs": CONFIGS, "depth": 6, "alphabet": CORE}))
+        jobs.append(("noread5", {"configs": CONFIGS, "depth": 5, "alphabet": CORE7}))
         jobs.append(("ext4", {"configs": [c for c in CONFIGS if c["N"] <= 2 and c["C"] <= 2], "depth": 4, "alphabet": EXT}))
     else:
         for c in CONFIGS:
             jobs.append(("core8-n%dc%d" % (c["N"], c["C"]), {"configs": [c], "depth": 8, "alphabet": CORE}))
+        jobs.append(("noread6-a", {"configs": CONFIGS[:5], "depth": 6, "alphabet": CORE7}))
+        jobs.append(("noread6-b", {"configs": CONFIGS[5:], "depth": 6, "alphabet": CORE7}))
         small = [c for c in CONFIGS if c["N"] <= 2 and c["C"] <= 2]
         jobs.append(("ext5-a", {"configs": small[:2], "depth": 5, "alphabet": EXT}))
         jobs.append(("ext5-b", {"configs": small[2:], "depth": 5, "alphabet": EXT}))
@@ -246,7 +255,7 @@ def part_trees(ctx):
             sample = [{k: v for k, v in n.items() if k in ("ev", "N", "C", "d", "out", "ans", "raised") and v not in ("", 0)} for n in nodes[1:8]]
         os.remove(tp)
         return tag, s, rej, leaves, nontriv, lines, sample
-    for tag, s, rej, leaves, nontriv, lines, sample in parallel(one, jobs, n=2 if not T else 5):
+    for tag, s, rej, leaves, nontriv, lines, sample in parallel(one, jobs, n=3 if not T else 5):
         ctx.log("tree %s: %d nodes, %d histories (%d open+recover), %d executions, %d rejected nodes" % (
             tag, lines, leaves, nontriv, s["executions"], len(rej)))
         ctx.cov["evaluations"] += s["executions"]
@@ -264,6 +273,8 @@ def rand_script(rng, thorough):
     evs = []
     L = rng.randint(30, 60 if not thorough else 90)
     mood = "fail"
+    noread = rng.choice([0.9, 0.6, 0.6, 0.3])       # per history: how often the breaker is read before an outcome is reported
+    pask = rng.choice([0.12, 0.12, 0.03])
     for _ in range(L):
         if rng.random() < 0.15:
             mood = rng.choice(["fail", "fail", "ok", "mixed", "wait"])
@@ -272,7 +283,7 @@ def rand_script(rng, thorough):
             evs.append({"ev": "adv", "d": rng.choice([1, 1, 2, c - 1 if c > 1 else 1, c, c, c + 1, 3 * c])})
             if mood == "wait" and rng.random() < 0.5:
                 mood = "mixed"
-        elif x < 0.30:
+        elif x < 0.18 + pask:
             evs.append({"ev": "ask"})
         else:
             if mood == "fail":
@@ -281,7 +292,7 @@ def rand_script(rng, thorough):
                 out = rng.choice(["ok"] * 5 + ["gwerr", "appexc"])
             else:
                 out = rng.choice(["ok", "gwerr", "gwerr", "appexc", "skip"])
-            e = {"ev": "call", "read": rng.random() < 0.85, "out": out, "kind": ""}
+            e = {"ev": "call", "read": rng.random() < noread, "out": out, "kind": ""}
             if out == "gwerr":
                 e["kind"] = rng.choice(["proxy", "conn", "gai"])
             if out == "appexc":
@@ -427,8 +438,15 @@ def witness_filter(c):
         cls = "filter-decision-raises"
     else:
         cls = "filter-routes-excluded-destination"
+    items = c["allow"] + c["block"]
+    syntax = "plain"
+    if any(x["raw"] != x["raw"].strip() or x["raw"] == "" for x in items):
+        syntax = "blank-or-empty-item"
+    elif any(x["raw"] != x["low"] for x in items) or c["host"] != c["hlow"]:
+        syntax = "letter-case"
     return {"class": cls, "host": c["host"], "host_kind": c["kind"], "resolution": c["rsv"], "exception": c.get("exc", ""),
-            "allow": c["allow"], "block": c["block"], "header": c["header"], "res": c["res"]}
+            "allow": [x["raw"] for x in c["allow"]], "block": [x["raw"] for x in c["block"]], "header": c["header"], "res": c["res"],
+            "list_syntax": syntax}
 
 
 def run_filter(ctx, spec, tag):
@@ -444,53 +462,64 @@ def part_filter(ctx, space):
     T = ctx.thorough
     lists = space["lists"]
     cfgs = [{"allow": a, "block": b} for a in lists for b in lists]
-    if not T:
-        keep = [c for c in cfgs if len(c["allow"]) + len(c["block"]) <= 1]          # every single-entry configuration
-        rest = [c for c in cfgs if c not in keep]
-        cfgs = keep + ctx.rng.sample(rest, 120)
     hosts = list(space["hosts"])
     # seeded random destinations beyond the enumerated pool: IPv4 literals around the range boundaries and names resolving to them
     def rnd_ip():
         a = ctx.rng.choice([10, 127, 172, 172, 192, 192, 9, 11, 126, 128, 171, 173, 191, 193, ctx.rng.randint(1, 223)])
         b = ctx.rng.choice([15, 16, 31, 32, 167, 168, 169, ctx.rng.randint(0, 255)])
         return [a, b, ctx.rng.randint(0, 255), ctx.rng.randint(1, 254)]
+    rnd = []
     for i in range(12 if not T else 60):
         ip = rnd_ip()
-        hosts.append({"h": ".".join(map(str, ip)), "kind": "ip4", "ip": ip, "v6": "", "rsv": "literal"})
+        h = ".".join(map(str, ip))
+        rnd.append({"h": h, "hlow": h, "hcanon": h, "kind": "ip4", "ip": ip, "v6": "", "rsv": "literal"})
         ip = rnd_ip()
-        hosts.append({"h": "h%d.rand.test" % i, "kind": "name", "ip": ip, "v6": "", "rsv": "ok"})
-    spec = {"hosts": hosts, "headers": space["headers"], "configs": cfgs, "rounds": 2}
-    s, total, constrained, bad, tp = run_filter(ctx, spec, "main")
-    ctx.log("filter: %d decisions of the real TrafficFilter judged by TrafficFilterP (%d with a routing prohibition), %d not permitted" % (
-        total, constrained, len(bad)))
-    ctx.cov["evaluations"] += total
-    ctx.cov["filter_cases"] = total
-    if bad:
-        lines = read_ndjson(tp)
-        seen = {}
-        for b in bad:
-            c = lines[b - 1]
-            w = witness_filter(c)
-            key = (w["class"], w["host_kind"], w["resolution"], w["exception"])
-            if key in seen:
-                seen[key] += 1
-                continue
-            seen[key] = 1
-            # reproduce on a fresh filter, alone
-            one = {"hosts": [h for h in hosts if h["h"] == c["host"]][:1], "headers": [c["header"]],
-                   "configs": [{"allow": c["allow"], "block": c["block"]}], "rounds": 1}
-            s2, t2, _, bad2, _ = run_filter(ctx, one, "repro")
-            if not bad2:
-                raise Broken("filter rejection not reproduced: %s" % json.dumps(w))
-            w["cases_of_this_kind_in_run"] = 0
-            ctx.violation(w, {"kind": "filter", "case": one, "recorded": c})
-        for v in ctx.violations:
-            pass
+        h = "h%d.rand.test" % i
+        rnd.append({"h": h, "hlow": h, "hcanon": h, "kind": "name", "ip": ip, "v6": "", "rsv": "ok"})
+    if not T:
+        keep = [c for c in cfgs if len(c["allow"]) + len(c["block"]) <= 1]          # every single-item configuration
+        rest = [c for c in cfgs if len(c["allow"]) + len(c["block"]) > 1]
+        runs = [("main", keep + ctx.rng.sample(rest, 150), hosts + rnd)]
     else:
-        ctx.cov["traces_validated_against_impl"] += total
-        ctx.cov["distinct_nontrivial"] += constrained
-    lines = None
-    ctx.sample({"kind": "filter-decision", "case": {"allow": cfgs[-1]["allow"], "block": cfgs[-1]["block"], "host": hosts[1]["h"]}})
+        rest = [c for c in cfgs if len(c["allow"]) + len(c["block"]) > 1]
+        # TLC builds the judged sets explicitly (limit 10^6 elements): the space is judged in slices
+        per = max(1, 400000 // (len(hosts) * len(space["headers"]) * 2))
+        runs = [("main%d" % k, cfgs[i:i + per], hosts) for k, i in enumerate(range(0, len(cfgs), per))]
+        runs.append(("rand", ctx.rng.sample(rest, 400), rnd))
+    tp = None
+
+    def exec_one(r):
+        tag, cf, hs = r
+        return run_filter(ctx, {"hosts": hs, "headers": space["headers"], "configs": cf, "rounds": 2}, tag)
+    results = parallel(exec_one, runs, n=3)
+    for (tag, cf, hs), (s, total, constrained, bad, tp1) in zip(runs, results):
+        tp = tp or tp1
+        ctx.log("filter %s: %d decisions of the real TrafficFilter judged by TrafficFilterP (%d with a routing prohibition), %d not permitted" % (
+            tag, total, constrained, len(bad)))
+        ctx.cov["evaluations"] += total
+        ctx.cov["filter_cases"] = ctx.cov.get("filter_cases", 0) + total
+        if bad:
+            lines = read_ndjson(tp1)
+            seen = {}
+            for b in bad:
+                c = lines[b - 1]
+                w = witness_filter(c)
+                key = (w["class"], w["host_kind"], w["resolution"], w["exception"], w["list_syntax"])
+                if key in seen or len(seen) >= 6:
+                    continue
+                seen[key] = 1
+                # reproduce on a fresh filter, alone
+                one = {"hosts": [h for h in hs if h["h"] == c["host"]][:1], "headers": [c["header"]],
+                       "configs": [{"allow": c["allow"], "block": c["block"]}], "rounds": 1}
+                s2, t2, _, bad2, _ = run_filter(ctx, one, "repro")
+                if not bad2:
+                    raise Broken("filter rejection not reproduced: %s" % json.dumps(w))
+                ctx.violation(w, {"kind": "filter", "case": one, "recorded": c})
+        else:
+            ctx.cov["traces_validated_against_impl"] += total
+            ctx.cov["distinct_nontrivial"] += constrained
+    ctx.sample({"kind": "filter-decision", "case": {"allow": [x["raw"] for x in runs[0][1][-1]["allow"]],
+                                                    "block": [x["raw"] for x in runs[0][1][-1]["block"]], "host": hosts[1]["h"]}})
     return tp
 
 
@@ -517,7 +546,8 @@ def part_selftest(ctx, rand_trace, filter_trace):
     r2, _, _ = validate_tree(ctx, p, "self2", workers=2)
     # (c) filter: a decision for a block-listed destination turned into "yes"
     fl = read_ndjson(filter_trace)
-    k3 = next(i for i, c in enumerate(fl) if c.get("ev") == "case" and c["host"] in c["block"] and not c["allow"] and c["header"] == "absent")
+    k3 = next(i for i, c in enumerate(fl) if c.get("ev") == "case" and c["host"] in [x["raw"] for x in c["block"]] and not c["allow"] and c["header"] == "absent"
+              and c["res"] == "no")
     fl[k3]["res"] = "yes"
     p = os.path.join(d, "filter.ndjson")
     open(p, "w").write("".join(json.dumps(n, separators=(",", ":")) + "\n" for n in fl))
@@ -533,7 +563,7 @@ def run(ctx):
                        "application exception [+ filter-skipped calls, three gateway error kinds, three application exception kinds, outcomes of "
                        "legs already in flight]) up to the stated depth for N, C in 1..3, as one recorded tree per run, + TLC walks + seeded random "
                        "long histories incl. the default configuration; a history is non-trivial when the breaker opened (a read answered FALSE) "
-                       "and a later read answered TRUE again. filter: decisions over the TLC-enumerated space (lists of <=2 entries x 26 "
+                       "and a later read answered TRUE again. filter: decisions over the TLC-enumerated space (lists of <=2 items incl. blank-padded / empty / upper-case items x 27 "
                        "destinations x 5 header values x 2 rounds through the result cache) + seeded random addresses; non-trivial = TrafficFilterP "
                        "forbids routing for the case (counted by TLC)")
     ctx.cov["checker_cmd"] = ("tlc -config MC_small.cfg MC_C19.tla ; tlc -config FailSafeTrace.cfg FailSafeTrace.tla ; "
